@@ -82,12 +82,20 @@ func loadPackages(patterns []string) ([]*PkgCtx, error) {
 
 // axiomsInto evaluates all axioms (and lemmas, which are proved separately)
 // as assumptions of st.
-func (pk *PkgCtx) axiomsInto(st *State, upto *Lemma) []string {
+func (pk *PkgCtx) axiomsInto(st *State, upto *Lemma, uses []string) []string {
 	var errs []string
+	want := map[string]bool{}
+	for _, u := range uses {
+		want[u] = true
+	}
 	for _, l := range pk.contracts.Lemmas {
 		if l == upto {
 			break
 		}
+		if !want[l.Name] {
+			continue
+		}
+		delete(want, l.Name)
 		env := &SpecEnv{st: st, old: st, vars: map[string]Val{}}
 		t := env.boolTerm(l.Cl.Expr)
 		if env.err != nil {
@@ -95,6 +103,9 @@ func (pk *PkgCtx) axiomsInto(st *State, upto *Lemma) []string {
 			continue
 		}
 		st.assume(t)
+	}
+	for u := range want {
+		errs = append(errs, "use: unknown axiom or lemma "+u)
 	}
 	return errs
 }
@@ -166,7 +177,7 @@ func (pk *PkgCtx) verifyLemmas() *FuncReport {
 		}
 		c := &VCtx{pkg: pk}
 		st := &State{c: c, objs: map[ObjID]Val{}, regs: map[ssa.Value]Val{}}
-		errs := pk.axiomsInto(st, l)
+		errs := pk.axiomsInto(st, l, l.Uses)
 		env := &SpecEnv{st: st, old: st, vars: map[string]Val{}}
 		t := env.boolTerm(l.Cl.Expr)
 		if env.err != nil {
@@ -286,8 +297,11 @@ func cmdVerify(args []string) {
 					if s != "discharged" {
 						for _, in := range o.Instances {
 							if in.Verdict != "unsat" || o.Cover {
-								fmt.Printf("       path %s: %s %s\n", in.Path, in.Verdict, firstLine(in.Output))
-								break
+								g := in.Goal.S
+								if len(g) > 300 {
+									g = g[:300] + "..."
+								}
+								fmt.Printf("       path %s: %s %s\n         goal: %s\n", in.Path, in.Verdict, firstLine(in.Output), g)
 							}
 						}
 					}
